@@ -354,6 +354,10 @@ class Negative(Term):
         super().__init__()
         self.term = term
 
+    def nodes_(self) -> Iterator[NodeT]:
+        yield self  # type:ignore[misc]
+        yield from self.term.nodes_()
+
     @property
     def is_aggregate(self) -> bool | None:  # type:ignore[override]
         return self.term.is_aggregate
@@ -550,6 +554,10 @@ class Values(Term):
     def __init__(self, field: str | "Field") -> None:
         super().__init__(None)
         self.field = Field(field) if not isinstance(field, Field) else field
+
+    def nodes_(self) -> Iterator[NodeT]:
+        yield self  # type:ignore[misc]
+        yield from self.field.nodes_()
 
     def get_sql(self, ctx: SqlContext) -> str:
         return "VALUES({value})".format(value=self.field.get_sql(ctx))
@@ -1477,6 +1485,11 @@ class AggregateFunction(Function):
         self._filters: list = []
         self._include_filter = False
 
+    def nodes_(self) -> Iterator[NodeT]:
+        yield from super().nodes_()
+        for criterion in self._filters:
+            yield from criterion.nodes_()
+
     @builder
     def filter(self, *filters: Any) -> AnalyticFunction:  # type:ignore[return]
         self._include_filter = True
@@ -1509,6 +1522,15 @@ class AnalyticFunction(AggregateFunction):
         self._orderbys: list[tuple] = []
         self._include_filter = False
         self._include_over = False
+
+    def nodes_(self) -> Iterator[NodeT]:
+        yield from super().nodes_()
+        for term in self._partition:
+            if isinstance(term, Node):
+                yield from term.nodes_()
+        for term, _ in self._orderbys:
+            if isinstance(term, Node):
+                yield from term.nodes_()
 
     @builder
     def over(self, *terms: Any) -> "Self":  # type:ignore[return]
@@ -1785,6 +1807,10 @@ class AtTimezone(Term):
         self.field = Field(field) if not isinstance(field, Field) else field
         self.zone = zone
         self.interval = interval
+
+    def nodes_(self) -> Iterator[NodeT]:
+        yield self  # type:ignore[misc]
+        yield from self.field.nodes_()
 
     def get_sql(self, ctx: SqlContext) -> str:
         sql = "{name} AT TIME ZONE {interval}'{zone}'".format(
